@@ -664,22 +664,75 @@ def fuzz_layer(env, target, seconds, seeds_dir=None, max_len=None):
     return f
 
 
+def valgrind_blocks(text):
+    """Splits a memcheck log into report blocks: (headline, [frame function names innermost first])."""
+    import re
+    blocks, cur = [], None
+    for ln in text.splitlines():
+        m = re.match(r"==\d+== ?(.*)$", ln)
+        if not m:
+            continue
+        body = m.group(1)
+        fm = re.match(r"\s+(?:at|by) 0x[0-9A-Fa-f]+: (.*)$", body)
+        if fm:
+            if cur is not None:
+                cur[1].append(fm.group(1))
+        elif body.strip() == "":
+            if cur is not None and cur[1]:
+                blocks.append(cur)
+            cur = None
+        elif cur is None and not body.startswith("Thread ") and not body.startswith(" "):
+            cur = [body.strip(), []]
+    if cur is not None and cur[1]:
+        blocks.append(cur)
+    return blocks
+
+
 def valgrind_layer(env, scale, prop=None):
+    """memcheck over a slice of the release build. tz-rs forbids unsafe code, so a report can only come from the
+    std/alloc paths it drives, from a miscompilation, or from memcheck's known false positives on optimised code
+    (partially initialised words compared as a whole). A block is attributed by its innermost frame that is not
+    std/core/alloc: `tz::` -> violation; `tzmon::` (the harness, also safe Rust) -> counted and shown in the
+    evidence, not a verdict on tz-rs; neither -> inconclusive."""
     @layer("valgrind-memcheck")
     def f():
         if not shutil.which("valgrind"):
             raise LayerInconclusive("valgrind not available")
         binary = build_harness(env, "release")
+        fd, log = tempfile.mkstemp(prefix="memcheck-", suffix=".log", dir=env.work)
+        os.close(fd)
         try:
-            r = run_tzmon(env, profile="release", binary=binary, scale=scale, prop=prop, threads=4, name="valgrind-memcheck", wrapper=["valgrind", "--quiet", "--error-exitcode=99", "--errors-for-leak-kinds=none", "--undef-value-errors=yes"], timeout=6000)
-            r["sanitizer_reports"] = 0
-            r["replay_spec"] = None
-            return r
-        except LayerInconclusive as ex:
-            msg = str(ex)
-            if "status 99" in msg or "Invalid read" in msg or "Invalid write" in msg or "uninitialised" in msg:
-                return {"name": "valgrind-memcheck", "profile": "valgrind", "evaluations": 0, "sanitizer_reports": 1, "violations": [viol("valgrind memcheck report", "tzmon %s scale %r" % (prop or env.prop, scale), "no invalid access / uninitialised value", msg[-500:], env.seed)], "replay_spec": None}
-            raise
+            r = run_tzmon(env, profile="release", binary=binary, scale=scale, prop=prop, threads=4, name="valgrind-memcheck", wrapper=["valgrind", "--quiet", "--error-exitcode=0", "--errors-for-leak-kinds=none", "--undef-value-errors=yes", "--num-callers=40", "--log-file=" + log], timeout=6000)
+            text = open(log, errors="replace").read()
+        finally:
+            if os.path.exists(log):
+                os.unlink(log)
+        blocks = valgrind_blocks(text)
+        in_tz, in_harness, other = [], [], []
+        for head, frames in blocks:
+            owner = None
+            import re
+            for fr in frames:
+                # whichever crate is named first in the frame's symbol decides (generic instantiations name both)
+                mt = re.search(r"(?<![A-Za-z0-9_])tz::", fr)
+                mh = re.search(r"(?<![A-Za-z0-9_])tzmon::", fr)
+                if mt and (not mh or mt.start() < mh.start()):
+                    owner = "tz"
+                    break
+                if mh:
+                    owner = "harness"
+                    break
+            (in_tz if owner == "tz" else in_harness if owner == "harness" else other).append((head, frames))
+        r["sanitizer_reports"] = len(in_tz)
+        r["replay_spec"] = None
+        r.setdefault("extra", {})
+        r["extra"].update({"memcheck_blocks": len(blocks), "blocks_in_tz_rs": len(in_tz), "blocks_in_harness_code_ignored": len(in_harness), "blocks_elsewhere": len(other),
+                           "harness_block_sites": sorted(set("%s @ %s" % (h, fr[0][:80]) for h, fr in in_harness))[:6]})
+        for head, frames in in_tz[:5]:
+            r["violations"].append(viol("valgrind memcheck report in tz-rs code", "tzmon %s scale %r" % (prop or env.prop, scale), "no invalid access / uninitialised value", head + " | " + " <- ".join(fr[:90] for fr in frames[:6]), env.seed))
+        if other:
+            r.setdefault("inconclusive", []).append("memcheck blocks attributed neither to tz-rs nor to the harness: %s @ %s" % (other[0][0], other[0][1][0][:120]))
+        return r
     return f
 
 
